@@ -206,6 +206,7 @@ type Compiled struct {
 
 // Run executes the compiled script in the virtual machine.
 func (c *Compiled) Run() error {
+	verifAt(verifLockW, c, nil)
 	c.lock.Lock()
 	defer c.lock.Unlock()
 
@@ -215,14 +216,17 @@ func (c *Compiled) Run() error {
 
 // RunContext is like Run but includes a context.
 func (c *Compiled) RunContext(ctx context.Context) (err error) {
+	verifAt(verifLockW, c, nil)
 	c.lock.Lock()
 	defer c.lock.Unlock()
 
 	v := NewVM(c.bytecode, c.globals, c.maxAllocs)
+	verifAt(verifRunCtxEnter, c, v)
 	ch := make(chan error, 1)
 	go func() {
 		defer func() {
 			if r := recover(); r != nil {
+				verifAt(verifVMGoPanic, c, v)
 				switch e := r.(type) {
 				case string:
 					ch <- fmt.Errorf(e)
@@ -233,22 +237,29 @@ func (c *Compiled) RunContext(ctx context.Context) (err error) {
 				}
 			}
 		}()
+		verifAt(verifVMGoStart, c, v)
 		ch <- v.Run()
+		verifAt(verifVMGoEnd, c, v)
 	}()
+	verifAt(verifRunCtxSpawned, c, v)
 
 	select {
 	case <-ctx.Done():
+		verifAt(verifRunCtxCancelSeen, c, v)
 		v.Abort()
+		verifAt(verifRunCtxAborted, c, v)
 		<-ch
 		err = ctx.Err()
 	case err = <-ch:
 	}
+	verifAt(verifRunCtxReturn, c, v)
 	return
 }
 
 // Size of compiled script in bytes
 // (as much as we can calculate it without reflection and black magic)
 func (c *Compiled) Size() int64 {
+	verifAt(verifLockR, c, nil)
 	c.lock.RLock()
 	defer c.lock.RUnlock()
 
@@ -258,6 +269,7 @@ func (c *Compiled) Size() int64 {
 // Clone creates a new copy of Compiled. Cloned copies are safe for concurrent
 // use by multiple goroutines.
 func (c *Compiled) Clone() *Compiled {
+	verifAt(verifLockR, c, nil)
 	c.lock.RLock()
 	defer c.lock.RUnlock()
 
@@ -283,6 +295,7 @@ func (c *Compiled) Clone() *Compiled {
 //
 // Remember to call .Clone() to get an instance of the script safe for concurrent use.
 func (c *Compiled) ReplaceBuiltinModule(name string, attrs map[string]Object) {
+	verifAt(verifLockW, c, nil)
 	c.lock.Lock()
 	defer c.lock.Unlock()
 
@@ -309,6 +322,7 @@ func (c *Compiled) ReplaceBuiltinModule(name string, attrs map[string]Object) {
 // IsDefined returns true if the variable name is defined (has value) before or
 // after the execution.
 func (c *Compiled) IsDefined(name string) bool {
+	verifAt(verifLockR, c, nil)
 	c.lock.RLock()
 	defer c.lock.RUnlock()
 
@@ -325,6 +339,7 @@ func (c *Compiled) IsDefined(name string) bool {
 
 // Get returns a variable identified by the name.
 func (c *Compiled) Get(name string) *Variable {
+	verifAt(verifLockR, c, nil)
 	c.lock.RLock()
 	defer c.lock.RUnlock()
 
@@ -343,6 +358,7 @@ func (c *Compiled) Get(name string) *Variable {
 
 // GetAll returns all the variables that are defined by the compiled script.
 func (c *Compiled) GetAll() []*Variable {
+	verifAt(verifLockR, c, nil)
 	c.lock.RLock()
 	defer c.lock.RUnlock()
 
@@ -363,6 +379,7 @@ func (c *Compiled) GetAll() []*Variable {
 // Set replaces the value of a global variable identified by the name. An error
 // will be returned if the name was not defined during compilation.
 func (c *Compiled) Set(name string, value interface{}) error {
+	verifAt(verifLockW, c, nil)
 	c.lock.Lock()
 	defer c.lock.Unlock()
 
